@@ -24,6 +24,20 @@ Encoder-consistency suite (`consist`): DQN/CQN/DDPG/TD3/PPO/MADDPG/MATD3/IPPO ar
 encoders (CNN / multi-input layer_norm=True -> BatchNorm, MLP layer_norm), go through training mode and one real
 learn() step, then — through public entry points only — the Q-values / greedy action / value estimate of one
 observation alone (unbatched, batch of one) must equal those inside batches of other size, composition, order.
+Values (round 5), suites `normalise-values`, `agent-routing` and the `ma_het` part of `multi-agent-preprocess`:
+  * `preprocess_observation` on image Boxes with per-pixel bounds (negative lows, different ranges per element), bounds
+    (0, 1), `+inf` in high only / `-inf` in low only / both, DEGENERATE pixels (low == high), rank-4 Boxes (must not be
+    scaled), space dtypes uint8 / int8 / int16 / float32 with observations in the space's dtype or float32, numpy and
+    torch, bounds broadcast over [], [B], [T, E] — against `obs normv 1` (Model `applyNormV true`, proved equal to the
+    generated `apply_image_normalization`) and the statement (finite, in [0, 1], exact value up to float32 rounding);
+  * `get_homo_id`, `_agent_position`, `assemble_/disassemble_homogeneous_outputs` called on an object carrying the
+    attributes `__init__` derives (11..13 agents, ids that do not sort lexicographically, nested prefixes, an id without
+    `_`, groups of size 1 / 3 / 9 / 10, 1..3 environment rows, unknown ids, agents absent from the call) — against
+    `obs homo`, `obs pos`, `obs asm`, `obs dis`;
+  * MADDPG / MATD3 `preprocess_observation` when the groups' spaces have the same class but different bounds / sizes.
+A second translator, `py2lean_obsval.py`, translates the VALUE logic (`maybe_add_batch_dim`,
+`apply_image_normalization`, the leaf chain of `preprocess_observation`, the routing functions) into
+`lean/Gen/ObsValGen.lean`; `Proofs/ObsValGenEq.lean` proves it equal to the model.
 Source translation (`pre_gate`, before the Lean gate): `py2lean_obs.py` translates the source text of
 `obs_channels_to_first`, `obs_to_tensor`, `maybe_add_batch_dim`, `get_vect_dim`, `preprocess_observation`
 (agilerl/utils/algo_utils.py of the tree under test; the SHAPE logic, values are cut) into
@@ -46,6 +60,7 @@ import torch
 
 import common
 import py2lean_obs
+import py2lean_obsval
 from common import ROOT, Check, InfraError, ddmin, frac
 
 warnings.filterwarnings("ignore")
@@ -74,9 +89,23 @@ def pre_gate(chk: Check) -> None:
     """Regenerate lean/Gen/ObsGen.lean from the source text of the tree under test (before the Lean gate) and
     re-check `generated = shape projection of the model` (Proofs/ObsGenEq.lean) and the theorems over the
     generated definitions (Props/C15.lean).  A failure is a gate problem; the suites then look for the input."""
+    # both generated files are written first: Props.C15 imports both, and the first gate's build must not see a
+    # stale Gen/ObsValGen.lean left by a run against another tree
+    try:
+        _t, _ = py2lean_obsval.translate(common.REPO)
+        py2lean_obsval.write_if_changed(_t, common.LEAN_DIR / "Gen" / "ObsValGen.lean")
+    except py2lean_obsval.Unsupported:
+        pass        # reported by the second gate below
     common.translation_gate(chk, py2lean_obs, "Gen/ObsGen.lean", ["Gen.ObsGen", "Proofs.ObsGenEq", "Props.C15"],
                             "obs_channels_to_first, obs_to_tensor, maybe_add_batch_dim, get_vect_dim, "
                             "preprocess_observation: shape logic")
+    # the VALUE logic: normalisation (bypasses, guarded scale, broadcast), one-hot values, batch dimension with data,
+    # agent-id grouping / positions, assemble / disassemble / critic stacking
+    common.translation_gate(chk, py2lean_obsval, "Gen/ObsValGen.lean",
+                            ["Gen.ObsValGen", "Proofs.ObsValGenEq", "Props.C15"],
+                            "maybe_add_batch_dim, apply_image_normalization, preprocess_observation leaf chain, "
+                            "get_homo_id, _agent_position, assemble/disassemble_homogeneous_outputs, "
+                            "stack_critic_observations: values")
 
 
 # findings analysed in the build round; each is probed on exactly its own input class.  A failing probe is a
@@ -89,6 +118,7 @@ F_AGENT_ORDER = "C15-agent-order"
 F_BOX0 = "C15-box-rank0"
 F_DQN_EVAL = "C15-dqn-eval-mode"
 F_PPO_EVAL = "C15-ppo-eval-mode"
+F_NORM_DEGEN = "C15-normalize-degenerate-bound"
 
 
 # ----------------------------------------------------------------------------- spaces and observations
@@ -1259,9 +1289,250 @@ def run_chfirst(case):
     return [], [], problems, [f"chfirst-rank{len(shape)}", "in-" + cont]
 
 
+
+# ----------------------------------------------------------------------------- values: normalisation, routing (round 5)
+def _fl_word(x: float) -> str:
+    if x != x:
+        return "nan"
+    if x in (float("inf"), float("-inf")):
+        return "inf" if x > 0 else "-inf"
+    return frac(x)
+
+
+def _fl_parse(w: str):
+    return w if w in ("nan", "inf", "-inf") else Fraction(w)
+
+
+def normv_space(case):
+    from gymnasium import spaces
+    shape = tuple(case["shape"])
+    dt = np.dtype(case["sdtype"])
+    low = np.array([float(x) for x in case["low"]], dtype=np.float64).reshape(shape).astype(dt)
+    high = np.array([float(x) for x in case["high"]], dtype=np.float64).reshape(shape).astype(dt)
+    return spaces.Box(low=low, high=high, shape=shape, dtype=dt)
+
+
+def run_normv(case):
+    """preprocess_observation on an image Box with per-pixel / infinite / unit / degenerate bounds, several space
+    and observation dtypes, bounds broadcast over batch and (step, env) — against `obs normv 1` (Model `applyNormV
+    true`, proved equal to the generated apply_image_normalization) and the statement itself"""
+    from agilerl.utils.algo_utils import preprocess_observation
+    sp = normv_space(case)
+    shape, lead, norm = list(case["shape"]), list(case["lead"]), case["norm"]
+    k = numel(shape)
+    flat = [float(v) for r in case["rows"] for v in r]
+    arr = np.array(flat, dtype=np.float64).reshape(lead + shape).astype(np.dtype(case["odtype"]))
+    obs = torch.from_numpy(arr.copy()) if case["container"] == "torch" else arr
+    lo = [float(x) for x in np.asarray(sp.low, np.float64).reshape(-1)]
+    hi = [float(x) for x in np.asarray(sp.high, np.float64).reshape(-1)]
+    problems, model_ops = [], []
+    try:
+        out = preprocess_observation(obs, sp, normalize_images=norm)
+    except Exception as e:  # noqa: BLE001
+        return ["raised"], [], [f"preprocess_observation raised {type(e).__name__}: {str(e)[:120]}"], ["normv-raised"]
+    vals = [float(x) for x in out.detach().reshape(-1).to(torch.float64).tolist()]
+    n = numel(lead)
+    if list(out.shape) != [n] + shape:
+        problems.append(f"result shape {list(out.shape)} != {[n] + shape}")
+    applies = norm and len(shape) == 3
+    bypass = any(h == float("inf") for h in hi) or any(l == float("-inf") for l in lo)
+    x32 = [float(np.float32(v)) for v in arr.astype(np.float64).reshape(-1)]
+    kinds = set()
+    for j, (x, y) in enumerate(zip(x32, vals)):
+        l, h = lo[j % k], hi[j % k]
+        if not applies or bypass:
+            want = Fraction(x)
+            kinds.add("identity")
+        elif h == l:
+            want = Fraction(x) - Fraction(l)         # the only legal value is x = l: 0
+            kinds.add("degenerate")
+        else:
+            want = (Fraction(x) - Fraction(l)) / (Fraction(h) - Fraction(l))
+            kinds.add("scaled")
+        if y != y or y in (float("inf"), float("-inf")):
+            problems.append(f"non-finite value {y} at element {j} (x={x}, low={l}, high={h}) for a legal observation")
+            break
+        if abs(Fraction(y) - want) > HALF_ULP32 * max(abs(want), Fraction(1, 2 ** 100)):
+            problems.append(f"element {j}: x={x} low={l} high={h} normalise={applies and not bypass}: got {y}, "
+                            f"the statement says {float(want)}")
+            break
+        if applies and not bypass and l <= x <= h and not (0 <= y <= 1):
+            problems.append(f"element {j}: x={x} in [{l}, {h}] maps to {y}, outside [0, 1]")
+            break
+    impl = ["ok " + " ".join(map(str, lead + shape)) + " | " + " ".join(_fl_word(v) for v in vals)]
+    if applies:
+        model_ops.append("obs normv 1 | " + " ".join(map(str, shape)) + " | " + " ".join(bound_word(v) for v in lo)
+                         + " | " + " ".join(bound_word(v) for v in hi) + " | " + " ".join(map(str, lead + shape))
+                         + " | " + " ".join(frac(v) for v in x32))
+    tags = ["normv-" + kd for kd in sorted(kinds)] + [f"normv-rank{len(shape)}", "normv-" + case["sdtype"],
+                                                        "normv-lead%d" % len(lead)]
+    return impl, model_ops, problems, tags
+
+
+def diff_normv(impl, model_lines):
+    if not model_lines:
+        return None
+    m, i = model_lines[0], impl[0]
+    if not m.startswith("ok") or not i.startswith("ok"):
+        return f"impl {i[:60]} model {m[:60]}"
+    ms, md = m[2:].split("|")
+    is_, id_ = i[2:].split("|")
+    if ms.split() != is_.split():
+        return f"shape impl {is_} model {ms}"
+    a, b = [_fl_parse(w) for w in id_.split()], [_fl_parse(w) for w in md.split()]
+    if len(a) != len(b):
+        return "length"
+    for j, (x, y) in enumerate(zip(a, b)):
+        if isinstance(x, str) or isinstance(y, str):
+            if x != y:
+                return f"element {j}: impl {x} model {y}"
+        elif x != y and abs(x - y) > HALF_ULP32 * max(abs(y), Fraction(1, 2 ** 100)):
+            return f"element {j}: impl {float(x)} model {float(y)}"
+    return None
+
+
+class _RouteStub:
+    """the attributes `MultiAgentRLAlgorithm.__init__` derives from `agent_ids`, built with the class's own
+    `get_homo_id` — the routing methods are then called unbound on this object (no networks needed)"""
+
+    def __init__(self, ids):
+        from agilerl.algorithms.core.base import MultiAgentRLAlgorithm as M
+        self.agent_ids = list(ids)
+        self.n_agents = len(ids)
+        self.shared_agent_ids, self.homogeneous_agents = [], {}
+        for a in ids:
+            g = M.get_homo_id(self, a)
+            if g in self.homogeneous_agents:
+                self.homogeneous_agents[g].append(a)
+            else:
+                self.shared_agent_ids.append(g)
+                self.homogeneous_agents[g] = [a]
+
+    def get_homo_id(self, a):
+        from agilerl.algorithms.core.base import MultiAgentRLAlgorithm as M
+        return M.get_homo_id(self, a)
+
+
+def run_route(case):
+    """get_homo_id / _agent_position / assemble / disassemble on many agents, ids that do not sort lexicographically,
+    groups of different sizes, 1..3 environment rows, a subset of agents present"""
+    from agilerl.algorithms.core.base import MultiAgentRLAlgorithm as M
+    ids, E, f, seed = case["agents"], case["E"], case["f"], case["seed"]
+    st = _RouteStub(ids)
+    r = np.random.default_rng(seed)
+    impl, model_ops, problems = [], [], []
+    for a in ids + case.get("unknown", []):
+        impl.append(str(M.get_homo_id(st, a)))
+        model_ops.append(f"obs homo | {a}")
+        impl.append(str(M._agent_position(st, a)))
+        model_ops.append(f"obs pos {a} | " + " ".join(ids))
+        want = a.rsplit("_", 1)[0]
+        if impl[-2] != want:
+            problems.append(f"get_homo_id({a!r}) = {impl[-2]!r}, the group is {want!r}")
+        wp = ids.index(a) if a in ids else len(ids)
+        if impl[-1] != str(wp):
+            problems.append(f"_agent_position({a!r}) = {impl[-1]}, its index in agent_ids is {wp}")
+    present = [a for a in ids if a not in case.get("absent", [])]
+    outs = {a: (r.integers(-9, 10, (E, f)) if f else r.integers(-9, 10, (E,))).astype(np.int64) for a in present}
+    fw = max(f, 1)
+    keys = list(outs)
+    random.Random(seed).shuffle(keys)            # the dictionary's order is not the order of agent_ids
+    asm = M.assemble_homogeneous_outputs(st, {a: outs[a].copy() for a in keys}, E)
+    for g in st.shared_agent_ids:
+        mem = [a for a in st.homogeneous_agents[g] if a in outs]
+        if not mem:
+            if g in asm:
+                problems.append(f"group {g} has no agent in the call but appears in the assembled output")
+            continue
+        model_ops.append("obs asm | " + " | ".join(" ".join(str(int(x)) for x in outs[a].reshape(-1)) for a in mem))
+        impl.append(" ".join(str(int(x)) for x in asm[g].reshape(-1)))
+        if list(asm[g].shape) != [len(mem) * E, fw]:
+            problems.append(f"assembled shape {list(asm[g].shape)} != {[len(mem) * E, fw]}")
+        for i, a in enumerate(mem):
+            for e in range(E):
+                if not np.array_equal(np.asarray(asm[g][i * E + e]).reshape(-1), np.asarray(outs[a][e]).reshape(-1)):
+                    problems.append(f"assembled row {i * E + e} of group {g} is not (agent {a}, env {e})")
+    if not case.get("absent"):
+        dis = M.disassemble_homogeneous_outputs(st, {g: v.copy() for g, v in asm.items()}, E)
+        for g in st.shared_agent_ids:
+            mem = st.homogeneous_agents[g]
+            model_ops.append(f"obs dis {len(mem)} | " + " ".join(str(int(x)) for x in asm[g].reshape(-1)))
+            impl.append(" | ".join(" ".join(str(int(x)) for x in dis[a].reshape(-1)) for a in mem))
+        for a in ids:
+            if not np.array_equal(dis[a].reshape(E, fw), outs[a].reshape(E, fw)):
+                problems.append(f"disassemble(assemble(x)) != x for agent {a}")
+    return impl, model_ops, problems, ["route", f"route-n{min(len(ids), 12)}", f"route-E{E}", f"route-f{min(f, 2)}",
+                                       "route-groups%d" % len(st.shared_agent_ids)]
+
+
+HET_IDS = ["a_0", "a_1", "z_0", "b_0"]
+HET_SPACES = {
+    # same class and shape, DIFFERENT bounds / sizes per group (dyadic ranges: float32 results are exact)
+    "image": {"a": {"kind": "box", "shape": [1, 2, 2], "low": [0] * 4, "high": [64] * 4, "sdtype": "uint8"},
+              "z": {"kind": "box", "shape": [1, 2, 2], "low": [-8, -8, 0, 0], "high": [8, 8, 16, 4], "sdtype": "float32"},
+              "b": {"kind": "box", "shape": [1, 2, 2], "low": [0] * 4, "high": [1] * 4, "sdtype": "float32"}},
+    "discrete": {"a": {"kind": "disc", "n": 4}, "z": {"kind": "disc", "n": 2}, "b": {"kind": "disc", "n": 3}},
+}
+
+
+def het_agent(algo, kind):
+    from gymnasium import spaces
+    key = ("het", algo, kind)
+    if key not in _AGENTS:
+        torch.manual_seed(5)
+        sps = [build_space(HET_SPACES[kind][a.rsplit("_", 1)[0]]) for a in HET_IDS]
+        cfg = cnn_cfg() if kind == "image" else mlp_cfg()
+        if algo == "matd3":
+            from agilerl.algorithms.matd3 import MATD3 as A
+        else:
+            from agilerl.algorithms.maddpg import MADDPG as A
+        _AGENTS[key] = A(sps, [spaces.Box(-1, 1, (2,), dtype=np.float32) for _ in HET_IDS], agent_ids=list(HET_IDS),
+                         net_config=cfg)
+    return _AGENTS[key]
+
+
+def run_ma_het(case):
+    """MultiAgentRLAlgorithm.preprocess_observation (MADDPG / MATD3) when the agents' spaces have the same class but
+    different bounds / sizes: every agent's observation must be prepared with ITS OWN space"""
+    algo, kind, E, seed = case["algo"], case["kind"], case["E"], case["seed"]
+    ag = het_agent(algo, kind)
+    r = random.Random(seed)
+    obs, model_ops, problems, impl, want_rows = {}, [], [], [], {}
+    order = list(HET_IDS)
+    r.shuffle(order)
+    for a in order:
+        sd = HET_SPACES[kind][a.rsplit("_", 1)[0]]
+        rows = [gen_row(r, sd) for _ in range(E)]
+        dt = "int64" if kind == "discrete" else sd["sdtype"]
+        obs[a] = make_leaf_obs(sd, [E], rows, "numpy", dt)
+        vals = float32_values(sd, rows, dt)
+        k = numel(obs_shape(sd))
+        want_rows[a] = [expected_row(sd, True, vals[i * k:(i + 1) * k]) for i in range(E)]
+    for a in HET_IDS:
+        sd = HET_SPACES[kind][a.rsplit("_", 1)[0]]
+        dt = "int64" if kind == "discrete" else sd["sdtype"]
+        k = numel(obs_shape(sd))
+        vals = [Fraction(float(x)) for x in np.asarray(obs[a], np.float64).reshape(-1)]
+        model_ops.append(f"obs prep 1 | {space_sections(sd)} | {' '.join(map(str, [E] + obs_shape(sd)))} | "
+                         + " ".join(frac(v) for v in vals))
+    out = ag.preprocess_observation(obs)
+    for a in HET_IDS:
+        sd = HET_SPACES[kind][a.rsplit("_", 1)[0]]
+        sh, data = canon_tensor(out[a])
+        impl.append("ok " + " ".join(map(str, sh)) + " | " + " ".join(frac(float(v)) for v in data))
+        want = [v for row in want_rows[a] for v in row]
+        if sh != [E] + net_shape(sd):
+            problems.append(f"agent {a}: shape {sh} != {[E] + net_shape(sd)} (its own space is {sd})")
+        elif not same_values(data, want, True):
+            problems.append(f"agent {a}: values differ from what ITS OWN space {sd} prescribes "
+                            f"(got {[float(x) for x in data[:4]]}…, want {[float(x) for x in want[:4]]}…)")
+    return impl, model_ops, problems, [f"ma-het-{algo}-{kind}", f"ma-het-E{E}"]
+
+
 RUNNERS = {"chfirst": run_chfirst, "prep": run_prep, "vect": run_vect, "batchdim": run_batchdim, "totensor": run_totensor,
            "ma_prep": run_ma_prep, "asm": run_asm, "critic": run_critic, "dqn_action": run_dqn_action,
-           "ma_action": run_ma_action, "noncontig": run_noncontig, "consist": run_consist}
+           "ma_action": run_ma_action, "noncontig": run_noncontig, "consist": run_consist,
+           "normv": run_normv, "route": run_route, "ma_het": run_ma_het}
 
 
 def classify(case, problems):
@@ -1279,6 +1550,8 @@ def classify(case, problems):
         return F_MD_STEPENV
     if op == "noncontig":
         return F_NONCONTIG
+    if op == "normv" and "non-finite value" in txt and any(float(l) == float(h) for l, h in zip(case["low"], case["high"])):
+        return F_NORM_DEGEN
     if op == "prep" and has_rank0_box(case) and "result shape" in txt and "rejected" not in txt:
         return F_BOX0
     if op == "dqn_action" and has_rank0_box(case):
@@ -1455,6 +1728,82 @@ DQN_SPACES_THOROUGH = [
 ]
 
 
+
+def gen_normv_case(rng: random.Random, mode=None):
+    rank = rng.choice([3, 3, 3, 3, 4])
+    shape = [rng.choice([1, 2, 3]) for _ in range(rank)]
+    n = numel(shape)
+    mode = mode or rng.choice(["perelem", "perelem", "neg", "u8", "i8", "i16", "posinf", "neginf", "bothinf", "unit",
+                               "degenerate", "degenerate", "f32-255"])
+    sdtype = "float32"
+    if mode == "perelem":
+        lo = [rng.randint(-6, 3) for _ in range(n)]
+        hi = [l + rng.choice([1, 2, 4, 8, 3, 5]) for l in lo]
+    elif mode == "neg":
+        lo = [-rng.choice([16, 8, 128]) for _ in range(n)]
+        hi = [rng.choice([-4, 0, 16]) for _ in range(n)]
+    elif mode == "u8":
+        lo, hi, sdtype = [0] * n, [255] * n, "uint8"
+    elif mode == "f32-255":
+        lo, hi = [0] * n, [255] * n
+    elif mode == "i8":
+        lo, hi, sdtype = [-128] * n, [127] * n, "int8"
+    elif mode == "i16":
+        lo, hi, sdtype = [-32768] * n, [32767] * n, "int16"
+    elif mode == "posinf":
+        lo, hi = [0] * n, [255] * n
+        hi[rng.randrange(n)] = float("inf")
+    elif mode == "neginf":
+        lo, hi = [0] * n, [255] * n
+        lo[rng.randrange(n)] = float("-inf")
+    elif mode == "bothinf":
+        lo, hi = [float("-inf")] * n, [float("inf")] * n
+    elif mode == "unit":
+        lo, hi = [0] * n, [1] * n
+    else:   # degenerate: some pixels can take one value only (a mask / constant border)
+        lo = [rng.randint(-3, 3) for _ in range(n)]
+        hi = [l + rng.choice([0, 0, 2, 4]) for l in lo]
+        j = rng.randrange(n)
+        hi[j] = lo[j]
+        sdtype = rng.choice(["float32", "int8"])
+    lead = rng.choice([[], [1], [2], [3], [2, 2], [3, 1]])
+    rows = []
+    for _ in range(numel(lead)):
+        row = []
+        for l, h in zip(lo, hi):
+            l2 = max(float(l), -40000.0)
+            h2 = min(float(h), 40000.0) if float(h) != float("inf") else l2 + 300
+            if float(l) == float("-inf"):
+                l2 = h2 - 300
+            row.append(rng.choice([int(l2), int(h2), rng.randint(int(l2), int(h2))]))
+        rows.append(row)
+    odtype = sdtype if rng.random() < 0.6 else "float32"
+    return {"op": "normv", "mode": mode, "shape": shape, "low": lo, "high": hi, "sdtype": sdtype, "odtype": odtype,
+            "lead": lead, "rows": rows, "container": rng.choice(["numpy", "torch"]),
+            "norm": rng.random() < 0.85, "form": "normv"}
+
+
+ROUTE_IDS = [
+    [f"drone_{i}" for i in range(12)],                                   # drone_10, drone_11 sort before drone_2
+    [f"agent_{i}" for i in (3, 0, 11, 2, 10, 1, 7, 5, 4, 9, 8, 6)],      # listed out of order
+    ["speaker_0", "listener_0", "listener_1", "listener_2"] + [f"scout_{i}" for i in range(9)],   # groups 1 / 3 / 9
+    ["red_team_0", "red_team_1", "red_0", "solo", "blue_team_10", "blue_team_2", "red_team_2", "x_y_z_0", "x_y_0",
+     "blue_team_1", "red_1"],                                            # nested prefixes, an id without `_`
+    [f"z_{i}" for i in (1, 0)] + ["b_0"] + [f"m_{i}" for i in range(10, 0, -1)],
+]
+
+
+def gen_route_case(rng: random.Random):
+    ids = list(rng.choice(ROUTE_IDS))
+    if rng.random() < 0.5:
+        rng.shuffle(ids)
+    c = {"op": "route", "agents": ids, "E": rng.choice([1, 2, 3]), "f": rng.choice([0, 1, 2, 3]),
+         "seed": rng.randrange(1 << 30), "unknown": rng.choice([[], ["ghost_0"], ["nobody"]]), "form": "route"}
+    if rng.random() < 0.3:
+        c["absent"] = rng.sample(ids, rng.choice([1, 2, 5]))
+    return c
+
+
 def gen_cases(chk: Check):
     rng = chk.rng
     quick = chk.tier == "quick"
@@ -1571,6 +1920,18 @@ def gen_cases(chk: Check):
         p = dict(c)
         p["op"] = "prep"
         cases.append(p)
+    # round 5: values of the normalisation, agent routing on many agents, per-agent spaces that differ
+    for m in ("i8", "i16", "degenerate", "posinf", "neginf", "u8", "perelem"):
+        cases.append(gen_normv_case(rng, m))
+    for _ in range(150 if quick else 1500):
+        cases.append(gen_normv_case(rng))
+    for _ in range(40 if quick else 300):
+        cases.append(gen_route_case(rng))
+    for algo in ("maddpg", "matd3"):
+        for kind in ("image", "discrete"):
+            for _ in range(3 if quick else 12):
+                cases.append({"op": "ma_het", "algo": algo, "kind": kind, "E": rng.choice([1, 2, 3]),
+                              "seed": rng.randrange(1 << 30), "form": "ma-het"})
     return cases
 
 
@@ -1619,6 +1980,8 @@ def evaluate(chk: Check, case):
         exact = bool(case.get("raw")) or case["kind"] != "image"
         diff = None if (mi != "reject" and mi[0] == ii[0] and same_values(ii[1], mi[1], exact)) else \
             f"critic stack impl {impl[0][:60]} model {model_out[0][:60]}"
+    elif case["op"] == "normv":
+        diff = diff_normv(impl, model_out)
     elif case["op"] == "vect" and impl == ["raised"]:
         diff = None         # the oracle already reports the exception
     else:
@@ -1676,11 +2039,13 @@ def run_suite(chk: Check, cases, account=True):
         suite = {"prep": "preprocess", "vect": "vect-dim", "batchdim": "batch-dim", "totensor": "to-tensor",
                  "ma_prep": "multi-agent-preprocess", "asm": "assemble-disassemble", "critic": "critic-stack",
                  "dqn_action": "agent-oracle", "ma_action": "agent-oracle", "noncontig": "to-tensor",
-                 "chfirst": "channels-first", "consist": "encoder-consistency"}[case["op"]]
+                 "chfirst": "channels-first", "consist": "encoder-consistency", "normv": "normalise-values",
+                 "route": "agent-routing", "ma_het": "multi-agent-preprocess"}[case["op"]]
         s = per_suite.setdefault(suite, [0, 0])
         s[0] += 1
         if account:
-            nontrivial = case["op"] in ("ma_prep", "asm", "critic", "ma_action", "dqn_action", "consist") or \
+            nontrivial = case["op"] in ("ma_prep", "asm", "critic", "ma_action", "dqn_action", "consist", "normv", "route",
+                                        "ma_het") or \
                 (case.get("form") not in ("unbatched", None)) or \
                 (case["op"] == "chfirst" and len(case["shape"]) >= 3)
             chk.case(case, nontrivial=nontrivial,
@@ -1737,6 +2102,10 @@ def run(chk: Check) -> None:
         "network forward passes are compared between batch compositions with atol 2e-5 (different BLAS kernels per "
         "batch size); greedy actions only where the top-2 Q gap exceeds 1e-4",
         "MultiDiscrete rows have exactly len(nvec) components; MultiBinary n is an int",
+        "value translation (Gen/ObsValGen.lean): dtype / device arguments erased (integer-dtype arithmetic on the bounds is "
+        "seen by the normalise-values suite only), bounds broadcast over leading dimensions only, agent ids are strings, "
+        "shared_agent_ids / homogeneous_agents as built by __init__ (agent-routing builds them with the class's own "
+        "get_homo_id)",
     ]
     cases = []
     for f in sorted((ROOT / "corpus" / "C15").glob("*.json")):
@@ -1786,6 +2155,12 @@ def selftest(chk: Check) -> None:
         {"op": "dqn_action", "space": DQN_SPACES[0][0], "norm": True, "form": "batch-of-one", "lead": [1],
          "rows": [[1, 2, 3, -1]], "dtype": "float32", "container": "numpy", "via": "dqn"},
     ] + [gen_prep_case(rng) for _ in range(40)]
+    mini += [gen_normv_case(rng, m) for m in ("degenerate", "degenerate", "i8", "i16", "perelem", "u8") for _ in range(3)]
+    mini += [gen_route_case(rng) for _ in range(6)]
+    mini += [{"op": "route", "agents": list(ids), "E": 2, "f": 2, "seed": 17 + i, "unknown": ["ghost_0"], "form": "route"}
+             for i, ids in enumerate(ROUTE_IDS)]          # incl. the nested prefixes (`red_team_0` vs `red_0`)
+    mini += [{"op": "ma_het", "algo": "maddpg", "kind": k, "E": 2, "seed": 3 + i, "form": "ma-het"}
+             for i, k in enumerate(("image", "discrete"))]
 
     class FProxy:
         def __init__(self, real):
@@ -1850,7 +2225,48 @@ def selftest(chk: Check) -> None:
             for act in self.actors:
                 act.__dict__.pop("eval", None)
 
-    faults = [("MADDPG.get_action leaves the actors in train mode (BatchNorm uses batch statistics)", MADDPG,
+    def norm_as_found(observation, observation_space):
+        # the code before the repair of C15-normalize-degenerate-bound: 0 / 0 where high == low
+        if np.inf in observation_space.high or -np.inf in observation_space.low:
+            return observation
+        low = torch.as_tensor(observation_space.low, dtype=observation.dtype)
+        high = torch.as_tensor(observation_space.high, dtype=observation.dtype)
+        return (observation - low) / (high - low)
+
+    def norm_integer_scale(observation, observation_space):
+        out = orig_norm(observation, observation_space)
+        if out is observation:
+            return out
+        low = torch.as_tensor(observation_space.low, dtype=observation.dtype)
+        scale = torch.as_tensor(observation_space.high - observation_space.low, dtype=observation.dtype)  # wraps in int8
+        return (observation - low) / torch.where(scale == 0, torch.ones_like(scale), scale)
+
+    orig_ma_prep = core_base.MultiAgentRLAlgorithm.preprocess_observation
+
+    def ma_prep_first_space(self, observation):
+        return {a: au.preprocess_observation(observation[a], self.single_space, self.device, self.normalize_images)
+                for a in sorted(observation.keys(), key=self._agent_position)}
+
+    def homo_id_first_field(self, agent_id):
+        return agent_id.split("_", 1)[0]
+
+    def assemble_in_dict_order(self, agent_outputs, vect_dim):
+        out = {}
+        for a, v in agent_outputs.items():
+            out.setdefault(self.get_homo_id(a), []).append(v)
+        return {g: np.reshape(np.stack(v, axis=0), (len(v) * vect_dim, -1)) for g, v in out.items()}
+
+    faults = [("normalisation as found: 0 / 0 where the bounds of a pixel coincide", au, "apply_image_normalization",
+               norm_as_found),
+              ("normalisation scale computed in the space's integer dtype", au, "apply_image_normalization",
+               norm_integer_scale),
+              ("multi-agent preprocess uses the first agent's space for every agent", core_base.MultiAgentRLAlgorithm,
+               "preprocess_observation", ma_prep_first_space),
+              ("get_homo_id cuts at the first underscore", core_base.MultiAgentRLAlgorithm, "get_homo_id",
+               homo_id_first_field),
+              ("assemble_homogeneous_outputs stacks in the order of the dictionary passed in",
+               core_base.MultiAgentRLAlgorithm, "assemble_homogeneous_outputs", assemble_in_dict_order),
+              ("MADDPG.get_action leaves the actors in train mode (BatchNorm uses batch statistics)", MADDPG,
                "get_action", maddpg_get_action_without_eval),
               ("one-hot off by one", au, "F", FProxy(orig_F)),
               ("batch dimension inferred wrongly for a batch of one", au, "maybe_add_batch_dim", mabd_batch_of_one),
